@@ -181,6 +181,12 @@ theorem case_key_untouched (kf k : Sx) (body rest : List Sx) :
       .list true (.op .CASE :: optimize kf :: .list true (k :: optList body) :: optClauses rest) := by
   simp [optimize, optClauses]
 
+/-- **the operands of `groups` are left as written** (a list operand is evaluated, a bare symbol is a name: rewriting
+`(do s)` to `s` would turn the one into the other — the second defect found by this check and repaired) -/
+theorem groups_untouched (w : Bool) (args : List Sx) :
+    optimize (.list w (.op .GROUPS :: args)) = .list w (.op .GROUPS :: args) := by
+  simp [optimize]
+
 /-- the repaired case: the clause key `(+ 1 2)` stays a list, so the number 3 does not match it -/
 example : optimize (.list true [.op .CASE, .int 3, .list true [.list true [.op .ADD, .int 1, .int 2], .str "yes"],
       .list true [.sym "default" Option.none, .list true [.op .ADD, .int 1, .int 2]]]) =
